@@ -255,4 +255,20 @@ def toDict (s : State) : Dict := { lookup := fun k st => lookupAll s k st }
 
 end TrieBuf
 
+namespace Layered
+
+/-- `Layered::add_phrase` / `update_phrase` do not forward an empty phrase to the user layer (they log
+    "BUG! added phrase is empty" and return `Ok`); everything else is forwarded unchanged -/
+def forwarded : Op → Bool
+  | .add _ t _ _ => !t.isEmpty
+  | .update _ t _ _ => !t.isEmpty
+  | _ => true
+
+/-- a `DictionaryMut` call on a `Layered` whose user layer is a `TrieBuf` -/
+def applyUser (u : TrieBuf.State) (op : Op) : TrieBuf.State := if forwarded op then TrieBuf.apply u op else u
+
+def runUser (u : TrieBuf.State) (ops : List Op) : TrieBuf.State := ops.foldl applyUser u
+
+end Layered
+
 end Chewing
